@@ -166,14 +166,16 @@ def main(args=None):
     args = parser.parse_args(args)
 
     if args.filename == '-':  # read from stdin
-        wrapper = TextIOWrapper(sys.stdin.buffer, encoding=args.encoding)
+        wrapper = TextIOWrapper(sys.stdin.buffer, encoding=args.encoding,
+                                newline='')
         try:
             data = wrapper.read()
         finally:
             wrapper.detach()
     else:
         try:
-            with open(args.filename, encoding=args.encoding) as f:
+            with open(args.filename, encoding=args.encoding,
+                      newline='') as f:
                 data = ''.join(f.readlines())
         except OSError as e:
             return _error(
